@@ -154,7 +154,26 @@ Section WithScope.
     | _ => ename (std_record_name n)
     end.
 
-  (** the text of a prototype element is a sample value: the minimum, 0 without one *)
+  (** the text of a prototype element is a sample value inside the element's own limits: the
+      minimum; without a minimum the maximum when that is below zero (negative, not -0, not NaN:
+      the bit patterns strictly between -0.0 and the negative NaNs, -inf included); else 0 *)
+  Definition below_zero64 (f : f64t) : bool :=
+    (0x8000000000000000 <? f64_bits f) && (f64_bits f <=? 0xfff0000000000000).
+  Definition below_zero32 (f : f32t) : bool :=
+    (0x80000000 <? f32_bits f) && (f32_bits f <=? 0xff800000).
+  Definition sample64 (mn mx : option f64t) : xstr :=
+    match mn, mx with
+    | Some f, _ => f64_text f
+    | None, Some f => if below_zero64 f then f64_text f else B "0"
+    | None, None => B "0"
+    end.
+  Definition sample32 (mn mx : option f32t) : xstr :=
+    match mn, mx with
+    | Some f, _ => f32_text f
+    | None, Some f => if below_zero32 f then f32_text f else B "0"
+    | None, None => B "0"
+    end.
+
   Definition t_record (r : record) : xnode :=
     let '(attrs, text) :=
       match r_type r with
@@ -162,12 +181,12 @@ Section WithScope.
           ([ty (B "Float"); at_ (B "precision") (B "single")] ++
            match mn with Some f => [at_ (B "minimum") (f32_text f)] | None => [] end ++
            match mx with Some f => [at_ (B "maximum") (f32_text f)] | None => [] end,
-           match mn with Some f => f32_text f | None => B "0" end)
+           sample32 mn mx)
       | DDouble mn mx =>
           ([ty (B "Float")] ++
            match mn with Some f => [at_ (B "minimum") (f64_text f)] | None => [] end ++
            match mx with Some f => [at_ (B "maximum") (f64_text f)] | None => [] end,
-           match mn with Some f => f64_text f | None => B "0" end)
+           sample64 mn mx)
       | DScaledInteger mn mx scale offset =>
           ([ty (B "ScaledInteger"); at_ (B "minimum") (dec_z mn); at_ (B "maximum") (dec_z mx);
             at_ (B "scale") (f64_text scale); at_ (B "offset") (f64_text offset)], dec_z mn)
